@@ -31,6 +31,15 @@ CHECKS = {
  "C07": ("reference-model monitor, exhaustive for a bounded space: operator x operand-kind x exponent-kind shapes x binding positions; checker verdicts in-process against a transcription of the documented table, then rustc verdict + printed value of every accepted shape against incanref",
          "Every depth-1 shape (thorough: depth-2 nestings) is checked in every binding position by the real TypeChecker (accept T / reject other kinds), and every accepted shape is built by the real `incan build` and run; value and numeric kind must match the reference. Exploration, exhaustive for the stated depth.",
          "The table transcription (25 lines) is the oracle; `x: float = <int expr>` is left unspecified.", "5/C07"),
+ "C01": ("reference-model monitor: generated well-typed programs compiled by the real `incan build`, executed, and compared (stdout lines, exit status, `Kind: message`) with the independent reference interpreter incanref; batched with per-case re-run and delta reduction",
+         "Hundreds (thorough: thousands) of type-directed generated cases over scalars, strings, lists, dicts, Option, models/classes with methods, enums + match, helper functions, control flow and error paths are built and run for real; every printed line and the way the program stops must be what the documented semantics assign. Exploration over a feature-accounted catalogue; quarantined features are listed in evidence.",
+         "The reference implements only documented rules (DESIGN Appendix A); undocumented renderings are neutralised (floats numeric, bools via if/else, collections element-wise).", "5/C01"),
+ "C02": ("implication monitor on the two real commands: every generated case and every repository/docs program that `incan --check` accepts is submitted to `incan build`; rustc's first error is the failure signature",
+         "Accepted => builds, observed on generated programs from the catalogue and on the repository's own programs; programs that fail on the unchanged tree are pinned one by one (path + rustc error) as known findings.",
+         "A crate missing from the offline registry is environmental (inconclusive).", "5/C02"),
+ "C03": ("mutation monitor: rule x context matrix of single-edit ill-typed twins of well-typed hosts, decided by the real TypeChecker in-process with span containment of the diagnostic in the offending construct",
+         "Every documented static rule of the property is broken once in every statement/expression/declaration context (function and method hosts, nesting to depth 3, k host variations); the twin must be rejected with a diagnostic located inside the edited construct and the host accepted.",
+         "The offending construct is the smallest statement/declaration containing the edit; spans are compared on their non-blank extent.", "5/C03"),
 }
 WIP = "check not built yet in this round (work in progress; see DESIGN.md section 5 for the planned monitor)"
 ALL = ["C%02d" % i for i in range(1, 21)]
